@@ -58,6 +58,12 @@ def cases(tier, seed, phase):
                 if a != '250' and b != '250':
                     dev['data'] = '554'
                 yield {'kind': 'smtp', 'lmtp': lmtp, 'pipelining': pipelining, 'nr': 3, 'dev': dev, 'dupaddr': True}
+    # two messages over one connection (idle_timeout set): what the first one was told must not colour the second one's result
+    for lmtp in (False, True):
+        for pipelining in (True, False):
+            for first in ({'rcpt1': '550'}, {'rcpt0': '450'}, {'mail': '550'}, {'eod': '552'}, {}):
+                for second in ({'mail': 'close'}, {'rcpt0': 'close'}, {'data': 'bad'}, {'eod': 'close'}, {'mail': 'bad'}, {'rcpt1': '450'}, {'eod': '451'}, {}):
+                    yield {'kind': 'smtp', 'lmtp': lmtp, 'pipelining': pipelining, 'nr': 2, 'dev': dict(first), 'second': dict(second)}
     for c in ('refused', 'timeout'):
         yield {'kind': 'smtp', 'lmtp': False, 'pipelining': True, 'nr': 1, 'dev': {}, 'connect': c}
     for eight in (True, False):
@@ -159,6 +165,9 @@ def make_env(nr, body8bit=False, utf8addr=None, dupaddr=False):
     return env
 
 
+MAILS = {'n': 0}      # MAIL commands seen by all peers of the current case (a second message may come over a new connection)
+
+
 class Peer(object):
     """Scripted SMTP/LMTP server on one end of a socketpair."""
 
@@ -242,6 +251,9 @@ class Peer(object):
                 if not self.answer('auth', '235'):
                     return
             elif cmd == b'MAIL':
+                MAILS['n'] += 1
+                if MAILS['n'] >= 2 and 'second' in self.case:
+                    self.dev = dict(self.case['second'])
                 self.nrcpt = 0
                 self.accepted = 0
                 if not self.answer('mail', '250'):
@@ -305,6 +317,7 @@ def run_smtp(case, model):
     from slimta.relay.smtp.static import StaticSmtpRelay, StaticLmtpRelay
     from email.encoders import encode_base64
     peers = []
+    MAILS['n'] = 0
 
     def creator(address):
         c = case.get('connect', 'ok')
@@ -318,6 +331,9 @@ def run_smtp(case, model):
         return a
     kw = dict(socket_creator=creator, ehlo_as='relay.example', connect_timeout=0.15, command_timeout=0.2, data_timeout=0.2,
               tls_required=bool(case.get('tlsrequired')))
+    if 'second' in case:
+        kw['idle_timeout'] = 2.0
+        kw['pool_size'] = 1
     if case.get('credentials'):
         kw['credentials'] = ('user', 'pass')
     if case.get('encoder'):
@@ -326,15 +342,35 @@ def run_smtp(case, model):
     relay = cls('peer.example', 25, **kw)
     env = make_env(case['nr'], bool(case.get('body8bit')), case.get('utf8addr'), bool(case.get('dupaddr')))
     res = run_attempt(relay, env)
+    res2 = None
+    if 'second' in case:
+        res2 = run_attempt(relay, make_env(case['nr']))
     for p, g in peers:
         g.kill(block=False)
     for c in list(relay.pool):
         c.kill(block=False)
     m = model_smtp(case, model)
     mismatch = None if m == res else {'op': 'relay smtp', 'impl': res, 'model': m, 'peer_log': peers[0][0].log if peers else None}
-    # ---- monitor
+    hits = smtp_monitor(case, case['dev'], res)
+    tags = ['lmtp' if case['lmtp'] else 'smtp', 'pipelining' if case['pipelining'] else 'no-pipelining', 'nr=%d' % case['nr'], res.split(':')[0]]
+    if case.get('dupaddr'):
+        tags.append('duplicate-recipient')
+    if res2 is not None:
+        tags.append('second-message')
+        # the second message: over the same connection when the first one left it usable (then no banner / EHLO stage), over a
+        # new one otherwise; either way its result is what its own script says
+        case2 = dict(case, dev=dict(case['second']))
+        case2.pop('second')
+        m2 = model_smtp(case2, model)
+        if mismatch is None and m2 != res2:
+            mismatch = {'op': 'relay smtp (second message)', 'impl': res2, 'model': m2, 'first': res,
+                        'peer_log': [x for p, _ in peers for x in p.log][-12:]}
+        hits += smtp_monitor(case2, case2['dev'], res2)
+    return mismatch, hits, tags
+
+
+def smtp_monitor(case, dev, res):
     hits = []
-    dev = case['dev']
     if res == 'hung':
         hits.append(hit('c11.attempt-never-ends.smtp', 'the attempt did not end with a result or a relay error', observed=dev))
     elif 'other' in res or res.startswith('returned-error-object'):
@@ -371,10 +407,7 @@ def run_smtp(case, model):
             decisive = [v for k, v in dev.items() if v[:1] == '5' and k in ('banner', 'mail', 'data', 'eod', 'auth')]
             if decisive and not case['lmtp'] and all(v[:1] in '235' for v in dev.values()) and dev.get('ehlo', '250') != '500':
                 hits.append(hit('c11.5xx-not-permanent.smtp', 'a 5xx outcome for the whole message is reported as transient', observed=res, expected=dev))
-    tags = ['lmtp' if case['lmtp'] else 'smtp', 'pipelining' if case['pipelining'] else 'no-pipelining', 'nr=%d' % case['nr'], res.split(':')[0]]
-    if case.get('dupaddr'):
-        tags.append('duplicate-recipient')
-    return mismatch, hits, tags
+    return hits
 
 
 def run_pipe(case, model):
